@@ -951,7 +951,9 @@ class GraphParser:
                     name, offset, TASK_OUTPUT_SUCCEEDED,
                     self.__class__.OP_OR,
                     name, offset, TASK_OUTPUT_FAILED)
-                expr = expr.replace(this, that)
+                expr = re.sub(
+                    self.__class__._RE_NAME_START + re.escape(this), that, expr
+                )
                 trigs += [
                     "%s%s:%s" % (name, offset, TASK_OUTPUT_SUCCEEDED),
                     "%s%s:%s" % (name, offset, TASK_OUTPUT_FAILED)]
